@@ -3,8 +3,8 @@
    start_import / finish_import do to it.  Faithful to the code, oddities included:
      - `handling_exception` is cleared at the START of execute (commit 8f090ae), so it is stale BETWEEN runs;
      - execute drops the old fiber and creates a new one; runtime_error -> reset_stack closes the upvalues and clears
-       `stack` and `frames` of the ACTIVE fiber only, leaving its exc_handlers / return_ip / error_ip, and leaving
-       the fibers that called it untouched (open upvalues included);
+       `stack` and `frames` of the ACTIVE fiber only, leaving its exc_handlers / return_ip / error_ip; the fibers
+       waiting for it get their upvalues closed (309b782) and are otherwise left as they are;
      - `working_class_def` is set by DeclareClass and taken by DefineClass; an error in between leaves it set;
      - a module is registered in `modules` BEFORE its body runs and gets `imported = true` only by FinishImport;
        start_import answers a registered, not yet imported module with the "Circular dependency" ImportError;
@@ -69,7 +69,7 @@ Inductive gval :=
 | VNum (z : Z)
 | VFn (g : nat)                      (* fn f() { return g<g> + 1; } *)
 | VClass (z : Z)                     (* class with method m returning z *)
-| VClosure (dangling : bool) (z : Z) (* || x with x = z; dangling: its upvalue still points into a cleared stack *)
+| VClosure (z : Z)                   (* || x with x = z *)
 | VMod (m : modk).
 
 Definition modk_eqb (a b : modk) : bool :=
@@ -169,24 +169,20 @@ Definition m_add_chunks (n : nat) (c : carried) : carried := with_chunks (c_chun
    new closure, new fiber, load_fiber (caller of the new fiber := the old self.fiber = None) *)
 Definition m_execute_start (c : carried) : carried := with_fibers [fresh_fiber] (with_he false c).
 
-(* reset_stack: close_upvalues(0) (commit fef17f0), stack.clear(), frames.clear() - of the ACTIVE fiber *)
+(* reset_stack: close_upvalues(0) on every fiber waiting for the active one (commit 309b782) and on the active
+   fiber (fef17f0); stack.clear(), frames.clear() of the ACTIVE fiber only *)
 Definition clear_fiber (f : fiber) : fiber :=
   mkFiber 0 0 (fb_handlers f) (fb_retpend f) (fb_errip f) false.
+Definition close_upv (f : fiber) : fiber :=
+  mkFiber (fb_frames f) (fb_stack f) (fb_handlers f) (fb_retpend f) (fb_errip f) false.
 Definition m_reset_stack (c : carried) : carried :=
   match c_fibers c with
   | [] => c
-  | f :: r => with_fibers (clear_fiber f :: r) c
+  | f :: r => with_fibers (clear_fiber f :: map close_upv r) c
   end.
 
-(* a closure stored in global c whose upvalue is still open in a fiber whose stack is being cleared *)
-Definition dangle (g : globals) : globals :=
-  fun k => match g k with Some (VClosure _ z) => Some (VClosure true z) | v => v end.
-
-(* runtime_error: store_error_ip_or, trace, reset_stack.  The upvalues of the active fiber are closed; those of the
-   fibers that CALLED it are not, and these fibers die with the run (the next execute drops the chain). *)
-Definition m_runtime_error (c : carried) : carried :=
-  let c1 := m_reset_stack c in
-  if existsb fb_open_upv (tl (c_fibers c)) then with_globals (dangle (c_globals c1)) c1 else c1.
+(* runtime_error: store_error_ip_or, trace, reset_stack *)
+Definition m_runtime_error (c : carried) : carried := m_reset_stack c.
 
 (* the final Return of the script: its frame is popped, its slot truncated *)
 Definition m_run_ok (c : carried) : carried :=
@@ -244,7 +240,6 @@ Inductive status :=
 | Running
 | Uncaught (k : kind) (msg : string)    (* run() returned Err: execute calls runtime_error *)
 | Panicked (msg : string)               (* the Rust code panics *)
-| Crashed                               (* use of a cleared/freed stack slot: undefined behaviour *)
 | Diverged (why : string).              (* the code takes another path than the source-level one *)
 
 Record mstate := mkMS {
@@ -370,15 +365,14 @@ Definition step (i : instr) (s : mstate) : mstate * list instr :=
   | IFiberLeave => (ms_with_c (with_fibers (tl (c_fibers c)) c) s, [])
   | ICapture z =>
       let f := active c in
-      (ms_with_c (with_globals (gset GLeak (VClosure false z) (c_globals c))
+      (ms_with_c (with_globals (gset GLeak (VClosure z) (c_globals c))
                     (with_active (mkFiber (fb_frames f) (fb_stack f) (fb_handlers f) (fb_retpend f) (fb_errip f) true) c)) s, [])
   | ICloseUpv =>
       let f := active c in
       (ms_with_c (with_active (mkFiber (fb_frames f) (fb_stack f) (fb_handlers f) (fb_retpend f) (fb_errip f) false) c) s, [])
   | IUseLeak =>
       match c_globals c GLeak with
-      | Some (VClosure false z) => (ms_print (show_Z z) s, [])
-      | Some (VClosure true _) => (ms_with_st Crashed s, [])
+      | Some (VClosure z) => (ms_print (show_Z z) s, [])
       | _ => (m_raise KName (name_error "c") s, [])
       end
   | IRange k => (ms_with_c (m_build_range k c) s, [])
@@ -493,7 +487,6 @@ Inductive outcome :=
 | OOk
 | OErr (k : kind) (msg : string)
 | OPanic (msg : string)
-| OCrash
 | ODiverged (why : string)
 | OReset.
 
@@ -512,7 +505,6 @@ Definition m_snippet (c : carried) (s : snip) : carried * obs :=
       | Running => (m_run_ok (ms_c r), mkObs (ms_out r) OOk (ms_loads r))
       | Uncaught k msg => (m_runtime_error (ms_c r), mkObs (ms_out r) (OErr k msg) (ms_loads r))
       | Panicked msg => (ms_c r, mkObs (ms_out r) (OPanic msg) (ms_loads r))
-      | Crashed => (ms_c r, mkObs (ms_out r) OCrash (ms_loads r))
       | Diverged why => (ms_c r, mkObs (ms_out r) (ODiverged why) (ms_loads r))
       end
     else (c0, mkObs [] (OErr KCompile syntax_msg) [])
@@ -532,7 +524,6 @@ Definition show_outcome (o : outcome) : string :=
   | OOk => "ok"
   | OErr k msg => "err:" ++ kind_s k ++ ":" ++ hex_of_string msg
   | OPanic msg => "panic:" ++ hex_of_string msg
-  | OCrash => "crash"
   | ODiverged why => "diverged:" ++ hex_of_string why
   | OReset => "reset"
   end.
